@@ -10,7 +10,13 @@ def plan(tier, seed):
     sl = 2 if tier == "quick" else 3
     fun = ["util.metadata_from_many", "util.analyse_paths"]
     jobs = [ch("C14", F, h, t, fun, env=dict(VERIF_SLEN=sl)) for h in
-            ("h_many_legacy", "h_many_schema_mismatch", "h_many_fast", "h_analyse_paths", "h_analyse_paths_root")]
+            ("h_many_legacy", "h_many_fast", "h_analyse_paths", "h_analyse_paths_root")]
+    for kind in (1, 2, 3):
+        j = ch("C14", F, "h_many_schema_mismatch", t, fun, shape=dict(difference=["renamed column", "one more column",
+                                                                                  "one column fewer"][kind - 1]),
+               env=dict(VERIF_SLEN=sl, VERIF_KIND=kind))
+        j["name"] += "[kind=%d]" % kind
+        jobs.append(j)
     # partition columns inferred from directory names: levels whose label texts overlap, with and without metadata
     jobs.append(ch("C14", "vf/pyshim/h_c08.py", "h_hive_two_levels", t,
                    ["api.paths_to_cats", "api._path_to_cats", "util._strip_path_tail", "util.val_to_num",
